@@ -83,6 +83,7 @@ type Exec struct {
 	hooks    core.AccessHooks
 	cur      *frame
 	UBEvents int
+	ExternValue func(name string, t *Type) Value // result of the k-th external call (shared naming with the oracle side)
 	jmp      map[uint64]*jmpPoint
 }
 
@@ -227,6 +228,19 @@ func (x *Exec) funcAddr(name string) *smt.Term {
 		x.addrFn[al.Base] = &Func{Name: name, IsDecl: true}
 	}
 	return al.Ptr()
+}
+
+func (x *Exec) Defined(name string) bool {
+	f := x.Funcs[name]
+	return f != nil && !f.IsDecl
+}
+
+// FuncNameAt returns the function whose address is a.
+func (x *Exec) FuncNameAt(a uint64) (string, bool) {
+	if f := x.addrFn[a]; f != nil {
+		return f.Name, true
+	}
+	return "", false
 }
 
 func (x *Exec) blockAddr(fn, blk string) *smt.Term {
